@@ -55,7 +55,9 @@ ASSUMPTIONS = [
 ]
 
 SI = b"\xc4\x24" + b"T" * 14
-ENABLERS = {"W1": b"W1" * 16, "W2": b"W2" * 16, "G": b"\x99" * 32}
+ENABLERS = {"W1": b"W1" * 16, "W2": b"W2" * 16, "G": b"\x99" * 32,
+            # proper prefixes of W1: a shorter secret that agrees with the stored enabler as far as it goes
+            "P16": (b"W1" * 16)[:16], "P1": (b"W1" * 16)[:1]}
 SECRETS = (b"rn24" * 8, b"cn24" * 8)
 VEC = (1, b"ZZ")
 FAIL_TV = [(0, 3, b"eq", b"\xff\xfe\xfd")]
@@ -296,7 +298,7 @@ def chunk_fn(chunk, seed, full):
         for state, named in chunk:
             k = len(named)
             for combo in itertools.product(PER_SHARE, repeat=k):
-                for en in ("W1", "W2", "G"):
+                for en in ("W1", "W2", "G") + (("P16", "P1") if any(s_ is not None for s_ in state) and len(combo) <= 2 else ()):
                     for rv in (0, 1):
                         bad, label = check_request(box, sd, files, state, named, combo, en, rv)
                         res.count("evaluations")
@@ -356,7 +358,7 @@ def run(tier, seed):
         "mixed_enabler_states": sum(1 for st in states if len(set(s[0] for s in st if s is not None)) > 1),
         "closure_checks": res.counts.get("closure_checks", 0),
         "exhaustive": True,
-        "rule": "every request of the product (named shares subset of {0,1,2}) x per share (testv none/pass/fail x writev none/one x new_length None/0, plus the must-not-exist test (0,1,eq,'') and a 2-byte test against a 5-byte specimen) x enabler W1/W2/garbage x readv none/one "
+        "rule": "every request of the product (named shares subset of {0,1,2}) x per share (testv none/pass/fail x writev none/one x new_length None/0, plus the must-not-exist test (0,1,eq,'') and a 2-byte test against a 5-byte specimen) x enabler W1/W2/garbage (and, on slots that hold a share, for requests naming <= 2 shares, two proper prefixes of W1) x readv none/one "
                 "= %d requests, issued from every one of %d slot states (shares absent or created under W1/W2 with each data value of the alphabet's closure); each request runs on the real server "
                 "from a byte-exact materialisation of the state and is compared with the reference decision and post-state" % (nreq, len(states)),
     }
